@@ -15,7 +15,7 @@ import sys
 import time
 
 VERIF = os.path.dirname(os.path.dirname(os.path.abspath(__file__)))
-SCRATCH = "/tmp/wt-verify"
+SCRATCH = os.environ.get("SEED_SCRATCH", "/tmp/wt-verify")
 
 
 def sh(cmd, cwd=None, timeout=3600, env=None):
@@ -29,11 +29,19 @@ def clean(repo):
 
 
 def run_demo(wt, d):
-    env = dict(os.environ, CARGO_NET_OFFLINE="true")
-    if os.path.exists(os.path.join(d, "demo.sh")):
-        rc, out = sh("bash %s" % os.path.join(d, "demo.sh"), cwd=wt, timeout=600, env=env)
-    else:
-        rc, out = sh("cargo run --offline --quiet -- %s" % os.path.join(d, "demo.noul"), cwd=wt, timeout=900, env=env)
+    """Demos were written to live in <worktree>/seed<k>/ (some demo.sh scripts cd relative to
+    themselves): copy the directory there, run, remove."""
+    env = dict(os.environ, CARGO_NET_OFFLINE="true", RUST_BACKTRACE="0")
+    k = os.path.basename(d.rstrip("/")).split("-")[-1]
+    local = os.path.join(wt, "seed%s" % k)
+    sh("rm -rf %s && cp -r %s %s" % (local, d, local))
+    try:
+        if os.path.exists(os.path.join(local, "demo.sh")):
+            rc, out = sh("bash seed%s/demo.sh" % k, cwd=wt, timeout=1800, env=env)
+        else:
+            rc, out = sh("cargo run --offline --quiet -- seed%s/demo.noul" % k, cwd=wt, timeout=900, env=env)
+    finally:
+        sh("rm -rf %s" % local)
     return out
 
 
